@@ -75,8 +75,12 @@ class CallMixin:
         if isinstance(f, ast.Attribute) and isinstance(f.value, ast.Name) and f.attr in ("append", "extend", "pop",
                                                                                         "insert", "remove"):
             d = self.scope_of(f.value.id)
-            if d is not None and d[f.value.id].t[0] == "comp" and d[f.value.id].t[1] == "list":
+            if d is not None and ((d[f.value.id].t[0] == "comp" and d[f.value.id].t[1] == "list") or
+                                  (d[f.value.id].t[0] == "call" and py("list") in d[f.value.id].ty)):
+                # a list whose content is not known element by element: keep it as a starred prefix so that what is
+                # appended later stays visible
                 cur = d[f.value.id]
+                self._remember([cur])
                 d[f.value.id] = V(("list", (("star", cur.t),)), cur.ty, cur.dep)
             if d is not None and d[f.value.id].t[0] == "list":
                 return self.list_mutation(d, f.value.id, f.attr, e)
